@@ -32,6 +32,11 @@ use nom::bytes::complete::take;
 use nom::error::{Error as NomError, ErrorKind};
 use nom::number::complete::{be_f64, be_i32, be_u8, be_u16, be_u32, be_u64};
 use std::borrow::Cow;
+#[cfg(edp_verif)]
+use crate::verif::DetHashMap as HashMap;
+#[cfg(edp_verif)]
+use std::collections::BTreeMap;
+#[cfg(not(edp_verif))]
 use std::collections::{BTreeMap, HashMap};
 use std::io::Read;
 use std::str;
